@@ -11,6 +11,7 @@ Decided statically: the evaluator is constant tables + index constants + three s
 """
 from itertools import combinations
 
+import re
 from sa import dtree, idioms as I, loops as L, poker, prov as P
 from sa.report import Unrecognised
 
@@ -624,6 +625,16 @@ def analyse_rainbow_hash(ctx, F, fn):
         return None
     src, chain = walk_loop.chain()
     src = P.strip(src)
+    zipped_counts = None
+    if src[0] == "named" and [c.rsplit("::", 1)[-1] for c in chain if c.rsplit("::", 1)[-1] != "into_iter"] == ["iter", "zip"]:
+        # `for (rank, &len) in RANKS.iter().zip(counts.iter().rev())`: the walk table in lockstep with the count table read
+        # backwards -- the same walk provided code(RANKS[i]) == slots - 1 - i for every i (checked on the constants below)
+        zc = [x for x in P.walk(walk_loop.iter_term) if x[0] == "call" and x[1].rsplit("::", 1)[-1] == "zip" and len(x[2]) == 2]
+        if len(zc) == 1:
+            b_src, b_chain = L.iterator_chain(zc[0][2][1])
+            if [c.rsplit("::", 1)[-1] for c in b_chain if c.rsplit("::", 1)[-1] != "into_iter"] == ["iter", "rev"]:
+                zipped_counts = P.strip(b_src)
+                chain = [c for c in chain if c.rsplit("::", 1)[-1] not in ("zip",)]
     if src[0] != "named" or any(c not in WHOLE_ARRAY_ITER_CALLS for c in chain):
         raise U(rule, f"second loop does not walk a constant rank table directly: {P.show(src)} via {chain}", fn)
     walk_const = src[1]
@@ -638,6 +649,8 @@ def analyse_rainbow_hash(ctx, F, fn):
         if L.is_next_call(t) or p in WHOLE_ARRAY_ITER_CALLS or card_getter(F, p, RANK) or is_code_call(F, p, RANK) \
                 or P.is_widening_from(p) or p == SLICE_LEN:
             return True
+        if zipped_counts is not None and p in ("std::iter::Iterator::rev", "std::iter::Iterator::zip"):
+            return True         # the two adaptors of the lockstep walk recognised above
         f2 = F.fns.get(p)
         if f2 is not None and f2.arg_count == 3 and not f2.impl and dp[0] in (None, p):
             dp[0] = p
@@ -652,6 +665,9 @@ def analyse_rainbow_hash(ctx, F, fn):
         return is_getter_of_item(F, t, count_loop, RANK)
 
     def is_walk_item(t):
+        if zipped_counts is not None:
+            s_ = P.strip(t)
+            return s_[0] == "field" and s_[2] == 0 and item_of_loop(s_[1], walk_loop)
         return item_of_loop(t, walk_loop)
 
     # stores: the per-rank counter array only
@@ -696,6 +712,10 @@ def analyse_rainbow_hash(ctx, F, fn):
             return a0 == ("param", 1)
         return False
     r_len = [x for x in r_alts if is_whole_len(x)]
+    if not r_len:
+        # .. or a constant equal to the length of the card array parameter (`const HAND_LEN: u8 = 7`)
+        m_ = re.match(r"^&?\[.*; (\d+)\]$", fn.local_ty(1))
+        r_len = [x for x in r_alts if m_ and P.const_int(x) == int(m_.group(1))]
     if len(r_alts) == 2 and len(r_len) == 1 and len(r_dec) == 1:
         pass        # remaining = cards.len(); -= len   (the counting loop visits every card once: same number)
     else:
@@ -706,7 +726,14 @@ def analyse_rainbow_hash(ctx, F, fn):
     # len read
     def is_len(t):
         s = P.strip(t)
+        if zipped_counts is not None:
+            return s[0] == "field" and s[2] == 1 and item_of_loop(s[1], walk_loop)
         return s[0] == "index" and s[1] == c_term and is_code_of(F, s[2], is_walk_item, RANK)
+    if zipped_counts is not None:
+        codes_z, _cfz = code_table(F, RANK)
+        if zipped_counts != c_term or len(walk) != n_slots or any(codes_z.get(nm_) != n_slots - 1 - i_ for i_, nm_ in enumerate(walk)):
+            raise U(rule, "the walk table zipped with the reversed count table does not pair every rank with its own count "
+                          "(code(RANKS[i]) must be slots - 1 - i)", fn)
     if r_dec[0][2] != ("self", R) or not is_len(r_dec[0][3]):
         raise U(rule, f"remaining counter decrement is not -= count[rank]: {P.show(r_dec[0])}", fn)
     for (bi, si, kind, payload) in pr.defs[R]:
